@@ -633,7 +633,7 @@ func init() {
 				c.Max("scheduling_points_per_execution", int64(st.MaxPoints))
 			}
 			if c.Shard == 0 {
-				if msg := runRaceBinary("javascript"); msg != "" {
+				if msg := runRaceBinary("javascript", c.Alive); msg != "" {
 					if strings.HasPrefix(msg, "skip:") {
 						c.Note("free-running -race pass not run: " + msg)
 					} else {
